@@ -358,6 +358,32 @@ func jsonBlockValue(labels []string, bodyJSON string, bodyIsArrayForm bool, r *l
 	return v
 }
 
+// jsonLabelTree renders consecutive blocks of one type (equal labels up to depth) as nested label objects:
+// every label level is one object whose properties are the distinct consecutive labels at that level, in order.
+func jsonLabelTree(run []wItem, depth int, r *lib.Rand) string {
+	if depth == len(run[0].labels) {
+		var bodies []string
+		for _, b := range run {
+			bt, _ := jsonBodyText(b.body, r, false)
+			bodies = append(bodies, bt)
+		}
+		if len(bodies) == 1 && r.Chance(3, 4) {
+			return bodies[0]
+		}
+		return "[" + strings.Join(bodies, ", ") + "]"
+	}
+	var parts []string
+	for k := 0; k < len(run); {
+		m := k + 1
+		for m < len(run) && run[m].labels[depth] == run[k].labels[depth] {
+			m++
+		}
+		parts = append(parts, jstr(run[k].labels[depth])+": "+jsonLabelTree(run[k:m], depth+1, r))
+		k = m
+	}
+	return "{" + strings.Join(parts, ", ") + "}"
+}
+
 // jsonBodyText renders a body as a JSON object, or (arrayOK) as an array of objects sharing the properties.
 func jsonBodyText(w *wBody, r *lib.Rand, arrayOK bool) (string, bool) {
 	var props []jprop
@@ -376,6 +402,12 @@ func jsonBodyText(w *wBody, r *lib.Rand, arrayOK bool) (string, bool) {
 		run := items[i:j]
 		if len(run) > 1 && r.Chance(1, 2) {
 			// group the run
+			if len(it.labels) > 1 && r.Chance(1, 2) {
+				// one nested object per label level: consecutive blocks with equal labels so far share the object
+				props = append(props, jprop{it.name, jsonLabelTree(run, 0, r)})
+				i = j - 1
+				continue
+			}
 			if len(it.labels) > 0 && r.Chance(1, 2) {
 				// group by equal first label: {"l1": [rest...]} for consecutive equal first labels
 				var parts []string
